@@ -118,7 +118,7 @@ DelRes(St, g) == IF St.res[g].n = 0 THEN St
 (***************************************************************************)
 L0 == [t |-> "idle", p |-> 0, e |-> "", pc |-> "", ctxt |-> "", brph |-> "", brfa |-> 0, mlab |-> Z2, mcond |-> "",
        gs |-> {}, g |-> 0, gi |-> 0, idxs |-> <<>>, cur |-> -1, r1 |-> 0, live1 |-> {}, run1 |-> {}, dels |-> <<>>,
-       err |-> 0, k |-> 0, noop |-> 0]
+       err |-> 0, k |-> 0, noop |-> 0, w |-> 0]
 M0 == [g \in Groups |-> 0]
 
 One(l, m) == {[L |-> l, M |-> m]}
@@ -166,6 +166,17 @@ SubLab(lab, m) == \A g \in Groups : m[g] = 1 => lab[g] = 1
 MinusLab(lab, m) == [g \in Groups |-> IF m[g] = 1 THEN 0 ELSE lab[g]]
 
 (***************************************************************************)
+(* The per-group mutex: mutex[g] = holder (0 free); an actor that called    *)
+(* LockMutexForGroup while the mutex was taken waits (L[b].w = g) and is    *)
+(* served before later arrivals (it is woken by the release).               *)
+(***************************************************************************)
+Waiters(a, h) == {b \in Actors \ {a} : L[b].w = h}
+CanAcq(a, l, m, h) == m[h] = 0 /\ (IF l.w # 0 THEN l.w = h ELSE Waiters(a, h) = {})
+LkLab(n, a, l, h) == [n |-> n, a |-> a, verb |-> "", kind |-> "", g |-> h, pt |-> "", res |-> "ok", k |-> l.k, pc |-> l.pc, gi |-> l.gi]
+LockStep(a, St, l, m, h, l2) == [S |-> St, L |-> l2, M |-> [m EXCEPT ![h] = a], lab |-> LkLab("lock", a, l, h)]
+WaitStep(a, St, l, m, h) == [S |-> St, L |-> [l EXCEPT !.w = h], M |-> m, lab |-> LkLab("wait", a, l, h)]
+
+(***************************************************************************)
 (* Successors of actor a in store St, local state l, mutexes m             *)
 (***************************************************************************)
 SuccOf(a, St, l, m) ==
@@ -192,10 +203,10 @@ SuccOf(a, St, l, m) ==
          Call(a, l, "list", IF l.t = "sync" THEN "Pod" ELSE "PodOnNode", 0, "", St, St,
               NextGroup([l EXCEPT !.gs = IF l.t = "sync" THEN AllGroups(St) ELSE NodeGroups(St)], m),
               SyncRet(l, m, 1))
-    [] l.pc = "SG_lock" ->
-         {[S |-> St, L |-> [l EXCEPT !.pc = "SG_l1", !.g = h, !.gs = l.gs \ {h}], M |-> [m EXCEPT ![h] = a],
-           lab |-> [n |-> "lock", a |-> a, verb |-> "", kind |-> "", g |-> h, pt |-> "", res |-> "ok", k |-> l.k, pc |-> l.pc, gi |-> l.gi]] :
-          h \in {h \in l.gs : m[h] = 0}}
+    [] l.pc = "SG_lock" ->     \* acquire the mutex of one of the remaining groups, or start waiting for it
+         {LockStep(a, St, l, m, h, [l EXCEPT !.pc = "SG_l1", !.g = h, !.gs = l.gs \ {h}, !.w = 0]) :
+          h \in {h \in l.gs : CanAcq(a, l, m, h)}}
+         \cup {WaitStep(a, St, l, m, h) : h \in {h \in l.gs : l.w = 0 /\ ~CanAcq(a, l, m, h)}}
     [] l.pc = "SG_l1" ->
          Call(a, l, "list", "Pod", g, "", St, St,
               One([l EXCEPT !.pc = "SG_l2", !.r1 = IF St.res[g].n > 0 THEN 1 ELSE 0,
@@ -224,9 +235,8 @@ SuccOf(a, St, l, m) ==
                  GroupDone(a, l, m, 1))
     \* ---- ReserveGpuDevice(group l.g), under the group mutex
     [] l.pc = "RV_lock" ->
-         IF m[g] # 0 THEN {}
-         ELSE {[S |-> St, L |-> [l EXCEPT !.pc = "RV_list"], M |-> [m EXCEPT ![g] = a],
-                lab |-> [n |-> "lock", a |-> a, verb |-> "", kind |-> "", g |-> g, pt |-> "", res |-> "ok", k |-> l.k, pc |-> l.pc, gi |-> l.gi]]}
+         IF CanAcq(a, l, m, g) THEN {LockStep(a, St, l, m, g, [l EXCEPT !.pc = "RV_list", !.w = 0])}
+         ELSE IF l.w = 0 THEN {WaitStep(a, St, l, m, g)} ELSE {}
     [] l.pc = "RV_list" ->
          Call(a, l, "list", "ResPod", g, "", St, St,
               IF St.res[g].n > 0
@@ -418,7 +428,8 @@ C17_Index ==
   \A p \in 1..2 : (IsFrac(p) /\ Bound(S, p) /\ Live(S, p) /\ \A g \in GrpSet(p) : S.res[g].n >= 1) =>
      S.cm[p].nvd = [i \in 1..Len(Grp(p)) |-> S.res[Grp(p)[i]].idx]
 C17_Iff == ctl.check = 1 => \A g \in Groups : ResIff(S, g)
-\* after a pod completed / was deleted / its BindRequest was deleted and the handler's sync ran (nothing else in flight)
+\* after a pod completed / was deleted / its BindRequest was deleted and the handler's sync ran, or after a failed
+\* bind whose rollback ran a complete SyncForNode (nothing else in flight): for the groups concerned
 C17_IffAfterEvent == \A g \in ctl.evgroups : ResIff(S, g)
 C17_NoOrphanConsumer ==
   ctl.check = 1 => \A p \in Pods : \A g \in Groups : (S.pods[p].ph = "Running" /\ HasLab(S, p, g)) => S.res[g].n >= 1
@@ -428,7 +439,7 @@ C17_NoOrphanConsumer ==
 (***************************************************************************)
 Ctl0 == [phase |-> "rec", nrec |-> 0, recs |-> Z3, nfail |-> 0, ncrash |-> 0, nenv |-> 0, nsync |-> 0, probe |-> 0,
          check |-> 0, final |-> 0, k1 |-> 0, concl |-> Z3, f1 |-> Z3, snap |-> [p \in Pods |-> [lab |-> Z2, cap |-> 0, evar |-> 0, rf |-> 0, noop |-> 0, brph |-> "", brfa |-> 0]],
-         exc |-> [p \in Pods |-> {}], noopviol |-> 0, nbexc |-> Z3, nbviol |-> 0, evgroups |-> {}, evpend |-> {}]
+         exc |-> [p \in Pods |-> {}], noopviol |-> 0, nbexc |-> Z3, nbviol |-> 0, fs |-> Z3, evgroups |-> {}, evpend |-> {}]
 
 IsWrite(lab) == lab.n = "call" /\ lab.verb \in {"create", "patch", "delete", "update"} /\ lab.kind \notin {"BindRequestStatus", "PodStatus"}
 \* a cleanup call (named by the program counter the model is at) that was itself failed by injection
@@ -446,6 +457,9 @@ ObserveCall(c, l, lab) ==
       c2 == IF l.t = "rec" /\ p \in Pods
             THEN [c1 EXCEPT !.exc[p] = c1.exc[p] \cup ExcOf(l, lab),
                             !.f1[p] = IF lab.n = "call" /\ lab.k = 1 /\ lab.res = "fail" THEN 1 ELSE c1.f1[p],
+                            !.fs[p] = IF lab.n = "call" /\ lab.res = "fail" THEN 1
+                                      ELSE IF lab.n = "call" /\ lab.res = "ok" /\ lab.verb = "list" /\ lab.kind = "PodOnNode" /\ c1.fs[p] >= 1 THEN 2
+                                      ELSE c1.fs[p],
                             !.nbexc[p] = IF lab.n = "call" /\ lab.res = "fail" /\ lab.verb = "get" /\ lab.kind \in {"BindRequest", "Pod"}
                                          THEN 1 ELSE c1.nbexc[p]]
             ELSE c1
@@ -459,13 +473,16 @@ NoopBroken(c, p, St, rerr, rrq) ==
 ObserveEnd(c, l, othersIdle, St, rerr, rrq) ==
   CASE l.t = "rec" /\ l.p \in Pods -> [c EXCEPT !.concl[l.p] = IF c.f1[l.p] = 1 THEN 0 ELSE 1,
                                                  !.k1 = IF c.k1 = 0 THEN l.k + 1 ELSE c.k1,
-                                                 !.nbviol = IF NoopBroken(c, l.p, St, rerr, rrq) THEN 1 ELSE c.nbviol]
+                                                 !.nbviol = IF NoopBroken(c, l.p, St, rerr, rrq) THEN 1 ELSE c.nbviol,
+                                                 \* a bind failure followed by a complete fault-free SyncForNode (the rollback's)
+                                                 !.evgroups = IF c.fs[l.p] = 2 /\ othersIdle /\ Exists(St, l.p) /\ St.pods[l.p].node = ""
+                                                              THEN GrpSet(l.p) ELSE {}]
     [] l.t \in {"sync", "syncnode"} -> IF othersIdle THEN [c EXCEPT !.check = 1] ELSE c
     [] l.t = "hdl" -> [c EXCEPT !.evgroups = IF othersIdle THEN c.evpend ELSE {}, !.evpend = {}]
     [] OTHER -> c
 ObserveStart(c, t, p, e, groups) ==
   LET c1 == [c EXCEPT !.check = 0, !.final = 0, !.evgroups = {}]
-  IN CASE t = "rec" /\ p \in Pods -> [c1 EXCEPT !.exc[p] = {}, !.concl[p] = 0, !.f1[p] = 0, !.nbexc[p] = 0, !.snap[p] = SideOf(S, p)]
+  IN CASE t = "rec" /\ p \in Pods -> [c1 EXCEPT !.exc[p] = {}, !.concl[p] = 0, !.f1[p] = 0, !.nbexc[p] = 0, !.fs[p] = 0, !.snap[p] = SideOf(S, p)]
        [] t = "hdl" -> [c1 EXCEPT !.evpend = groups]
        [] OTHER -> c1
 
